@@ -46,3 +46,12 @@ Section Agree.
       [ rewrite gen_restore_stream_agrees; reflexivity | destruct v; reflexivity ] ].
   Qed.
 End Agree.
+
+(* Every wrapper of the stream converter (convertInputs, restoreInputs, convertOutputs, restoreOutputs) hands every entry -
+   pending inputs AND channel values, on the way into the checkpoint and out of it - to convert / restore with the run's
+   own paradigm on every path: [convert_entry] / [restore_entry] above are what happens to EVERY checkpointed entry, which is
+   how [paradigm_roundtrip] reads them. Not so before 57995e9 (F-C05h): restoreOutputs returned early for a run without
+   streams, so the nilChunk markers of channel values were never turned back into nil (the extractor then yields
+   (true, true, true, false)). *)
+Theorem gen_wrappers_reach_entry : Gen.CheckpointStream.wrappers_reach_entry = (true, true, true, true).
+Proof. reflexivity. Qed.
